@@ -1,49 +1,49 @@
 // @unit c06_has_default property=C06 attach=typify-impl/src/structs.rs
 // @h c06_has_default_option_absent_null_bool tier=both
-// @h c06_has_default_option_numbers tier=both
-// @h c06_has_default_option_strings tier=both
-// @h c06_has_default_option_arrays tier=both
-// @h c06_has_default_option_objects tier=both
-// @h c06_has_default_vec_absent_null_bool tier=both
-// @h c06_has_default_vec_numbers tier=both
-// @h c06_has_default_vec_strings tier=both
+// @h c06_has_default_option_numbers tier=thorough
+// @h c06_has_default_option_strings tier=thorough
+// @h c06_has_default_option_arrays tier=thorough
+// @h c06_has_default_option_objects tier=thorough
+// @h c06_has_default_vec_absent_null_bool tier=thorough
+// @h c06_has_default_vec_numbers tier=thorough
+// @h c06_has_default_vec_strings tier=thorough
 // @h c06_has_default_vec_arrays tier=both
-// @h c06_has_default_vec_objects tier=both
+// @h c06_has_default_vec_objects tier=thorough
 // @h c06_has_default_map_absent_null_bool tier=both
-// @h c06_has_default_map_numbers tier=both
-// @h c06_has_default_map_strings tier=both
-// @h c06_has_default_map_arrays tier=both
+// @h c06_has_default_map_numbers tier=thorough
+// @h c06_has_default_map_strings tier=thorough
+// @h c06_has_default_map_arrays tier=thorough
 // @h c06_has_default_map_objects tier=both
 // @h c06_has_default_unit_absent_null_bool tier=both
-// @h c06_has_default_unit_numbers tier=both
-// @h c06_has_default_unit_strings tier=both
-// @h c06_has_default_unit_arrays tier=both
-// @h c06_has_default_unit_objects tier=both
+// @h c06_has_default_unit_numbers tier=thorough
+// @h c06_has_default_unit_strings tier=thorough
+// @h c06_has_default_unit_arrays tier=thorough
+// @h c06_has_default_unit_objects tier=thorough
 // @h c06_has_default_boolean_absent_null_bool tier=both
-// @h c06_has_default_boolean_numbers tier=both
-// @h c06_has_default_boolean_strings tier=both
-// @h c06_has_default_boolean_arrays tier=both
-// @h c06_has_default_boolean_objects tier=both
-// @h c06_has_default_integer_absent_null_bool tier=both
+// @h c06_has_default_boolean_numbers tier=thorough
+// @h c06_has_default_boolean_strings tier=thorough
+// @h c06_has_default_boolean_arrays tier=thorough
+// @h c06_has_default_boolean_objects tier=thorough
+// @h c06_has_default_integer_absent_null_bool tier=thorough
 // @h c06_has_default_integer_numbers tier=both
-// @h c06_has_default_integer_strings tier=both
-// @h c06_has_default_integer_arrays tier=both
-// @h c06_has_default_integer_objects tier=both
-// @h c06_has_default_string_absent_null_bool tier=both
-// @h c06_has_default_string_numbers tier=both
+// @h c06_has_default_integer_strings tier=thorough
+// @h c06_has_default_integer_arrays tier=thorough
+// @h c06_has_default_integer_objects tier=thorough
+// @h c06_has_default_string_absent_null_bool tier=thorough
+// @h c06_has_default_string_numbers tier=thorough
 // @h c06_has_default_string_strings tier=both
-// @h c06_has_default_string_arrays tier=both
-// @h c06_has_default_string_objects tier=both
-// @h c06_has_default_float_absent_null_bool tier=both
+// @h c06_has_default_string_arrays tier=thorough
+// @h c06_has_default_string_objects tier=thorough
+// @h c06_has_default_float_absent_null_bool tier=thorough
 // @h c06_has_default_float_numbers tier=both
-// @h c06_has_default_float_strings tier=both
-// @h c06_has_default_float_arrays tier=both
-// @h c06_has_default_float_objects tier=both
+// @h c06_has_default_float_strings tier=thorough
+// @h c06_has_default_float_arrays tier=thorough
+// @h c06_has_default_float_objects tier=thorough
 // @h c06_has_default_unresolved_absent_null_bool tier=both
-// @h c06_has_default_unresolved_numbers tier=both
-// @h c06_has_default_unresolved_strings tier=both
-// @h c06_has_default_unresolved_arrays tier=both
-// @h c06_has_default_unresolved_objects tier=both
+// @h c06_has_default_unresolved_numbers tier=thorough
+// @h c06_has_default_unresolved_strings tier=thorough
+// @h c06_has_default_unresolved_arrays tier=thorough
+// @h c06_has_default_unresolved_objects tier=thorough
 // @canary canary_c06_has_default
 //
 // C06 -- classification of a property default (`structs::has_default`).
